@@ -152,7 +152,7 @@ def explore_subtree(run_fn, prefix, p_bound, r_bound, stats, max_violations=20, 
         ch.horizon = horizon
         res = run_fn(ch)
         if len(ch.points) < len(pref):
-            raise HarnessError("replay ended before the prefix was consumed (%d < %d)" % (len(ch.points), len(pref)))
+            raise HarnessError("replay ended before the prefix was consumed (%d < %d): prefix=%r result=%r" % (len(ch.points), len(pref), [c for c, _, _ in pref], str(res.get("outcome"))[:300]))
         stats.executions += 1
         stats.points += len(ch.points)
         stats.max_points = max(stats.max_points, len(ch.points))
